@@ -15,6 +15,25 @@ from .values import (ExternalFn, ModuleRef, Opaque, PyRaise, Sym, SymC, SymSeq, 
                      v_cmp, v_ite, v_mul, v_neg, v_not, v_or, v_sub, v_truediv, v_truth, z_of)
 
 
+class PRow:
+    """Pointwise view of an array (..., d): the last axis has the given entries, leading axes are pointwise."""
+
+    def __init__(self, values, lead=1):
+        self.values = tuple(values)
+        self.lead = lead
+
+    def getitem(self, idx):
+        items = idx if isinstance(idx, tuple) else (idx,)
+        ints = [i for i in items if isinstance(i, int) and not isinstance(i, bool)]
+        if any(i is None for i in items) and not ints:
+            return PRow(self.values, self.lead + sum(1 for i in items if i is None))
+        if len(ints) == 1:
+            return self.values[ints[0]]
+        if not ints:
+            return self
+        raise Unsupported("row-array index with several integers")
+
+
 class Arr:
     """Small fixed-length numeric array (np.array of a tuple): element-wise arithmetic with broadcasting of scalars."""
 
@@ -1124,6 +1143,8 @@ _EXTERNALS["numpy.expand_dims"] = ExternalFn("numpy.expand_dims", _identity0)
 
 def _np_asarray(I, args, kw):
     x = args[0]
+    if isinstance(x, PRow):
+        return x
     if isinstance(x, (tuple, list)):
         return Arr(x)
     return x
@@ -1165,8 +1186,9 @@ def a_get_dtype(I, args, kw):
 @_ext("abtem.core.complex.complex_exponential")
 def a_complex_exponential(I, args, kw):
     I.ctx.trusted.add("ASSUMED contract: complex_exponential(x) == cos(x) + i sin(x) (Numba kernel, not extracted)")
-    x = args[0]
-    return SymC(I.ctx.uf_apply("cos", [x]), I.ctx.uf_apply("sin", [x]), arg=x)
+    from .values import phase
+
+    return phase(args[0])
 
 
 @_ext("abtem.core.utils.expand_dims_to_broadcast")
@@ -1206,3 +1228,25 @@ def a_unpack_distributions(I, args, kw):
 def a_reduced_images(I, args, kw):
     I.ctx.trusted.add("ASSUMED contract: _reduced_scanned_images_or_line_profiles wraps the integrated array unchanged")
     return args[0]
+
+
+@_ext("abtem.core.grid.spatial_frequencies")
+def a_spatial_frequencies(I, args, kw):
+    """ASSUMED contract (A-POINTWISE): the spatial frequency of the current element along axis i is m_i / (n_i * d_i)
+    with m_i the element's integer frequency index (the same symbol in every call of one run)."""
+    gpts, sampling = args[0], args[1]
+    if kw.get("return_grid") or (len(args) > 2 and args[2]):
+        raise Unsupported("spatial_frequencies(return_grid=True)")
+    I.ctx.trusted.add("ASSUMED contract: spatial_frequencies(gpts, sampling)[i] == m_i / (gpts[i] * sampling[i]) at the current element (np.fft.fftfreq)")
+    g = I.iter_concrete(gpts)
+    d = I.iter_concrete(sampling)
+    out = []
+    for i, (n, dd) in enumerate(zip(g, d)):
+        m = Sym(z3.Int(f"freq_index{i}"), "int")
+        out.append(v_truediv(m, v_mul(n, dd), None))
+    return tuple(out)
+
+
+@_ext("numpy.tan")
+def np_tan(I, args, kw):
+    return I.ctx.uf_apply("tan", [args[0]])
